@@ -361,6 +361,12 @@ pub struct Ctx {
     counter: AtomicUsize,
 }
 
+impl Drop for Ctx {
+    fn drop(&mut self) {
+        let _ = std::fs::remove_dir_all(&self.dir);
+    }
+}
+
 fn workdir() -> String {
     let base = std::env::var("VERIF_WORK").unwrap_or_else(|_| "/verif/.cache/work".to_string());
     format!("{}/c18/{}", base, std::process::id())
